@@ -4,7 +4,7 @@
    over solutions is how "unichain" enters). *)
 From Coq Require Import QArith Qabs List Arith ZArith Bool.
 From MdpaxV Require Import Model.ListUtil Model.QFun Model.MDP Model.Bellman Model.Solvers Model.CorrSolve
-     Proofs.LoopP Proofs.C01P Proofs.C01RunP Proofs.C04P Proofs.C04RunP.
+     Proofs.LoopP Proofs.C01P Proofs.C01RunP Proofs.C04P Proofs.C04RunP Proofs.C04DriftP.
 Import ListNotations.
 Open Scope Q_scope.
 
@@ -39,14 +39,26 @@ Theorem rvi_invariant_after_any_step : forall (M : mdp), wf M -> forall eps st,
 Proof. exact rvi_step_inv. Qed.
 Print Assumptions rvi_invariant_after_any_step.
 
-(* values do not grow like n*g: the reference component IS the gain estimate after every iteration.
-   PARTIAL: a uniform bound on the span of the values over all n is not proved (it needs
-   aperiodicity and a convergence-rate argument). *)
-Theorem rvi_no_drift_partial : forall (M : mdp), wf M -> forall eps j st, (0 < j)%nat ->
+(* "stay bounded instead of growing with the number of iterations": the reference component IS the gain estimate
+   after every iteration ... *)
+Theorem rvi_reference_component_is_gain : forall (M : mdp), wf M -> forall eps j st, (0 < j)%nat ->
   let st' := steps rvist (rvi_step eps (sweep M 1)) j st in
   r_gain st' == qnth (r_vals st') (nS M - 1).
 Proof. exact rvi_reference_is_gain. Qed.
-Print Assumptions rvi_no_drift_partial.
+Print Assumptions rvi_reference_component_is_gain.
+
+(* ... and, UNIFORMLY in the number of iterations j (converged or not; periodic chains included - no aperiodicity is
+   needed for boundedness), for every solution (gs, hs) of the optimality equation: the relative values minus the gain
+   estimate stay within w of the bias differences hs - hs(ref), and the gain estimate within w of the optimal gain,
+   where w = span(v0 - hs) depends on the initial values only. *)
+Theorem rvi_no_drift : forall (M : mdp), wf M -> forall eps gs hs st0, aroe M gs hs -> rvi_inv M st0 ->
+  let w := fspan (fun s => qnth (r_vals st0) s - hs s) (nS M) in
+  forall j, (0 < j)%nat ->
+  let st := steps rvist (rvi_step eps (sweep M 1)) j st0 in
+  (forall s, (s < nS M)%nat -> Qabs ((qnth (r_vals st) s - r_gain st) - (hs s - hs (nS M - 1)%nat)) <= w) /\
+  Qabs (r_gain st - gs) <= w.
+Proof. exact rvi_values_bounded. Qed.
+Print Assumptions rvi_no_drift.
 
 (* the fresh solver satisfies the invariant *)
 Theorem rvi_fresh_state_invariant : forall (M : mdp) V0, length V0 = nS M -> V0 <> [] -> rvi_inv M (rvi_init V0).
@@ -60,3 +72,10 @@ Example c04_example :
   qlist_eqb (map (fun x => x - (3#2)) (sweep c04_M 1 [0; 1])) [0; 1] = true /\
   (let '(st, conv, _) := S_rvi_solve c04_M 1 (1#100) false 1 20 (rvi_init [0;0]) in (conv, r_gain st)) = (true, 3#2).
 Proof. vm_compute. repeat split; reflexivity. Qed.
+(* the uniform bound is meaningful there: from v0 = (5, -3), w = span(v0 - hs) = 9 and after 1, 2, 7, 30 iterations the
+   relative values are (v - gain) = (-1, 0) = hs - hs(ref) exactly and |gain - 3/2| <= 9 *)
+Example c04_drift_example :
+  map (fun j => let st := steps rvist (rvi_step (1#100) (sweep c04_M 1)) j (rvi_init [5; -3]) in
+                (map (fun x => Qred (x - r_gain st)) (r_vals st), Qle_bool (Qabs (r_gain st - (3#2))) (9#1)))
+      [1; 2; 7; 30]%nat = repeat ([-1; 0], true) 4.
+Proof. vm_compute. reflexivity. Qed.
